@@ -2,9 +2,12 @@ package dbsim
 
 import (
 	"fmt"
+	"math/rand/v2"
 	"testing"
 	"testing/synctest"
 	"time"
+
+	"github.com/cilium/statedb"
 
 	"verifharness/hookctl"
 	"verifharness/vkit"
@@ -98,3 +101,31 @@ func RunBubble(t *testing.T, r *vkit.Run, idx int, o Opts, nontrivial func(*Sim)
 		}
 	})
 }
+
+// TableInfo exposes a simulated table to concurrent readers.
+type TableInfo struct {
+	Name   string
+	Schema Schema
+	Table  statedb.Table[*Obj]
+}
+
+// Tables lists the tables of the history.
+func (s *Sim) Tables() []TableInfo {
+	var out []TableInfo
+	for _, t := range s.Tabs {
+		out = append(out, TableInfo{t.name, t.schema, t.tbl})
+	}
+	return out
+}
+
+// ModelFromSnapshot reconstructs a table model from the primary index of a snapshot (All).
+func ModelFromSnapshot(txn statedb.ReadTxn, tbl statedb.Table[*Obj]) *TableModel {
+	m := &TableModel{Objs: map[string]MObj{}, Rev: tbl.Revision(txn)}
+	for o, rev := range tbl.All(txn) {
+		m.Objs[string(o.ID)] = MObj{o, rev}
+	}
+	return m
+}
+
+// GenProbes draws probes for a table state.
+func (ti TableInfo) GenProbes(rng *rand.Rand, m *TableModel, n int) []Probe { return ti.Schema.genProbes(rng, m, n) }
